@@ -44,6 +44,10 @@ func body(p plan) (func(), *stack.Config) {
 				}
 				i := k
 				k++
+				if p.evSize[i] >= limit {
+					// a second poll within the invocation returns the same (cut) event again
+					rt.Raw("nextrepeat", "GET", "/2018-06-01/runtime/invocation/next", map[string]string{"User-Agent": "verif-runtime/1.0"}, nil)
+				}
 				rt.Response(n.ReqID, pat(p.respSize[i], 50+i))
 			}
 		}
@@ -77,6 +81,16 @@ func judge(p plan) sched.Judge {
 			}
 			if c.Kind == "response" && c.Answered >= 0 {
 				posts = append(posts, c)
+			}
+		}
+		// a repeated poll delivers exactly what the first one delivered
+		var lastNext *stack.Call
+		for _, c := range w.Calls {
+			if c.Kind == "next" && c.Answered >= 0 && c.Status == 200 {
+				lastNext = c
+			}
+			if c.Kind == "nextrepeat" && c.Answered >= 0 && lastNext != nil && (c.Status != 200 || !bytes.Equal(c.Body, lastNext.Body)) {
+				failf("4", "event-cut:repeated-next", "a repeated next within the invocation returned status %d and %d bytes, the first one had delivered %d bytes", c.Status, len(c.Body), len(lastNext.Body))
 			}
 		}
 		var outs []string
